@@ -294,7 +294,8 @@ def run(ctx):
         bg("warm", lambda: ctx.gotest("c15", "NoSuchTest", timeout=900)),
     ]
     if not q:
-        ths.append(bg("exhc", lambda: ctx.tlc("MultipathMC", "Multipath_deep2.cfg", workers=4, timeout=1500, tag="deep2")))
+        ths.append(bg("deep2", lambda: (ctx.tlc("MultipathMC", "Multipath_deep2.cfg", workers=4, timeout=1500, tag="deep2"),
+                                        ctx.tlc("MultipathMC", "Multipath_deep3.cfg", workers=4, timeout=1500, tag="deep3"))))
     for t in ths:
         t.join()
     if errs:
@@ -376,7 +377,7 @@ def run(ctx):
                 [r for r in recs if r["kind"] == "sample"][:1] + [r for r in recs if r["kind"] == "word"][:2])
     ctx.assumptions += [
         "the 2^-31 bound at word size 32 is inferred: TLC counts RandIntn's accepted words exhaustively for W = 4..8 "
-        "(quick) / 4..10 (thorough) (every residue q or q-1 words, only residue t short), the real RandIntn is "
+        "(quick) / 4..9 (thorough) (every residue q or q-1 words, only residue t short), the real RandIntn is "
         "compared with the W = 32 instance of the same formula on boundary words (t-1, t, t+1, 0, 2^32-1) only",
         "uniformity on the real code is a counting statement: complete enumerations of word tuples that are uniform "
         "modulo lcm(1..n) are fed through the scripted reader and every k-subset must be selected equally often",
